@@ -625,7 +625,6 @@ func (h *handler1) handleSubscribe(ctx context.Context, snSubscribe *snPkts1.Sub
 
 	mqSubscribe := mqPkts.NewControlPacket(mqPkts.Subscribe).(*mqPkts.SubscribePacket)
 	mqSubscribe.MessageID = snSubscribe.MessageID()
-	mqSubscribe.Dup = snSubscribe.DUP()
 	mqSubscribe.Qoss = []byte{snSubscribe.QOS}
 	mqSubscribe.Topics = []string{topic}
 	return h.mqttSend(mqSubscribe)
